@@ -280,8 +280,25 @@ def fullTable (ph jph : Nat) : Option Bool :=
     if jph = COMMIT then some true else none
   else none
 
+/-- The value rules of `FullyValidateMessage` (everything after the progress check): a zero key forces
+a zero vote value and a zero justification value; a justification's value must be the one the abbreviated
+table prescribes. -/
+def fullyRules (pm : PMsg) : Bool :=
+  let m := pm.msg
+  if pm.key.isZero && (!m.vote.value.isEmpty ||
+      (match m.just with
+        | some j => !j.vote.value.isEmpty
+        | none => false)) then false
+  else
+    match m.just with
+    | none => true
+    | some j =>
+      match fullTable m.vote.phase j.vote.phase with
+      | none => false
+      | some useVal => decide (j.vote.value = (if useVal then m.vote.value else []))
+
 /-- `cachingValidator.FullyValidateMessage` on a partially validated message whose `Vote.Value` (and
-inferred justification value) has been filled in. -/
+inferred justification value) has been filled in: chain validity, key consistency, progress, value rules. -/
 def fully (cfg : Cfg) (prog : Progress) (pm : PMsg) : Verdict :=
   let m := pm.msg
   if !chainValid m.vote.value then .invalid
@@ -289,19 +306,7 @@ def fully (cfg : Cfg) (prog : Progress) (pm : PMsg) : Verdict :=
   else
     match byProgress cfg prog m.vote with
     | some e => e
-    | none =>
-      if pm.key.isZero && (!m.vote.value.isEmpty ||
-          (match m.just with
-            | some j => !j.vote.value.isEmpty
-            | none => false)) then .invalid
-      else
-        match m.just with
-        | none => .accept
-        | some j =>
-          match fullTable m.vote.phase j.vote.phase with
-          | none => .invalid
-          | some useVal =>
-            if j.vote.value = (if useVal then m.vote.value else []) then .accept else .invalid
+    | none => if fullyRules pm then .accept else .invalid
 
 /-! ## `pmsg`: strip, infer, complete -/
 
